@@ -1,7 +1,7 @@
 import Mimium.Model.StateTree
 import Mimium.Model.StateTreeIO
 import Mimium.Model.StateTreeCheck
-/-! `mmdriver <model>`: line protocol driver. One input line per case on stdin, one output line per case. -/
+/-! `drv_c08`: line protocol driver for C08. One input line per case on stdin, one output line per case. -/
 open Mimium
 
 def c08Line (line : String) : String :=
@@ -28,5 +28,5 @@ def main (args : List String) : IO UInt32 := do
   let stdin ← IO.getStdin
   let stdout ← IO.getStdout
   match args with
-  | ["c08"] => loop stdin stdout c08Line; return 0
-  | _ => IO.eprintln "usage: mmdriver <model>"; return 2
+  | [] => loop stdin stdout c08Line; return 0
+  | _ => IO.eprintln "usage: drv_c08 < cases"; return 2
